@@ -315,6 +315,14 @@ nd::harnesses! {
         assert!(size_of_val(&o16) == size_of_val(&o64) && core::mem::align_of_val(&o16) == core::mem::align_of_val(&o64));
         assert!(size_of_val(&o16) == 3 * W, "vtable, instance, release function");
         assert!(o16.fetch() == A16(v as u64 ^ 0x1616));
+        // the same for an unwrapped ASSOCIATED type
+        let s16 = trait_obj!(Sg(v) as Sampler);
+        let s32 = trait_obj!(Dz { v: v as u64, adds: 0, urgent: 0 } as Sampler);
+        let vs16: &SamplerVtbl<_, A16> = s16.get_vtbl_base();
+        assert!(size_of_val(vs16) == 2 * W && core::mem::align_of_val(vs16) == align_of::<usize>(), "exactly one function pointer per exported method");
+        assert!(size_of_val(&s16) == size_of_val(&s32) && core::mem::align_of_val(&s16) == core::mem::align_of_val(&s32));
+        assert!(size_of_val(&s16) == 3 * W);
+        assert!(s16.sample() == A16(v as u64 ^ 0x5A5A) && s32.sample() == v);
     }
 
     /// Object container = instance, context, temporary storage - in that order, when both the context and the temporary
